@@ -11,49 +11,58 @@ use peppi::io::slippi::de::verif::{game_end, game_start, handle_splitter_event, 
 use peppi::io::slippi::de::{parse_event, ParseState};
 use peppi::io::slippi::Version;
 
-// @verif property=C06,C07 tier=quick mem=10 timeout=1500
-// @encodes peppi::io::slippi::de::game_end, if_more on blocks of every length 0..=5 (all shorter than a full 3.13+ block)
-// @symbolic 43 block length and all bytes
-// @bound lengths 0..=5 (length 6 with its placement bytes: c05_end_len6_*)
-// @stub alloc::fmt::format = returns an empty String
-#[kani::proof]
-#[kani::unwind(8)]
-#[kani::stub(alloc::fmt::format, format_stub)]
-fn c06_nopanic_end_short() {
+fn end_short(n: usize) {
 	let b: [u8; 5] = kani::any();
-	let n: usize = kani::any();
-	kani::assume(n <= 5);
 	let mut r: &[u8] = &b[..n];
 	let res = game_end(&mut r);
 	// a block cut inside the placements (3..=5 bytes) or empty must be an error, never a partial End
 	if n == 0 || n >= 3 {
 		assert!(res.is_err());
 	}
-	kani::cover!(n == 0, "empty block");
-	kani::cover!(n == 5 && res.is_err(), "cut inside placements");
-	kani::cover!(n == 2 && res.is_ok(), "2-byte block accepted");
 	forget(res);
 }
 
 // @verif property=C06,C07 tier=quick mem=10 timeout=1500
-// @encodes peppi::io::slippi::de::game_start on a block shorter than the oldest layout (0..=319 bytes)
-// @symbolic 2569 block length and all bytes
-// @bound lengths 0..=319 (every cut inside the version / game-info / player blocks / random seed)
+// @encodes peppi::io::slippi::de::game_end, if_more on blocks of every length 0..=5 (all shorter than a full 3.13+ block)
+// @symbolic 240 all bytes of six blocks
+// @bound lengths 0, 1, 2, 3, 4, 5 (one call each; length 6 with its placement bytes: c05_end_len6_*)
+// @stub alloc::fmt::format = returns an empty String
+#[kani::proof]
+#[kani::unwind(8)]
+#[kani::stub(alloc::fmt::format, format_stub)]
+fn c06_nopanic_end_short() {
+	end_short(0);
+	end_short(1);
+	end_short(2);
+	end_short(3);
+	end_short(4);
+	end_short(5);
+	kani::cover!(true, "reached");
+}
+
+fn start_short(n: usize) {
+	let b: [u8; 320] = kani::any();
+	let mut r: &[u8] = &b[..n];
+	let res = game_start(&mut r);
+	assert!(res.is_err());
+	forget(res);
+}
+
+// @verif property=C06,C07 tier=quick mem=10 timeout=1500
+// @encodes peppi::io::slippi::de::game_start on a block shorter than the oldest layout
+// @symbolic 10000 all bytes of four blocks
+// @bound lengths 0, 3, 100 (inside the game-info block), 319 (one byte short of the 0.1 layout); the cut lengths are concrete (a symbolic length makes all 30 reads fallible: > 15 min)
 // @stub alloc::fmt::format = returns an empty String
 // @cbmc --max-field-sensitivity-array-size 1024
 #[kani::proof]
 #[kani::unwind(8)]
 #[kani::stub(alloc::fmt::format, format_stub)]
 fn c06_nopanic_start_short() {
-	let b: [u8; 320] = kani::any();
-	let n: usize = kani::any();
-	kani::assume(n < 320);
-	let mut r: &[u8] = &b[..n];
-	let res = game_start(&mut r);
-	assert!(res.is_err());
-	kani::cover!(n == 319, "one byte short of the 0.1 layout");
-	kani::cover!(n == 0, "empty block");
-	forget(res);
+	start_short(0);
+	start_short(3);
+	start_short(100);
+	start_short(319);
+	kani::cover!(true, "reached");
 }
 
 // @verif property=C06 tier=quick mem=10 timeout=1500
@@ -76,31 +85,65 @@ fn c06_nopanic_splitter_fields() {
 	forget(raw);
 }
 
-// @verif property=C06 tier=quick mem=10 timeout=1500
-// @encodes peppi::io::slippi::de::parse_event with a payload table that declares the message splitter with a size other than 516
-// @symbolic 136 declared size (1..=16) and the event bytes
-// @bound one event, port-free 3.16 state, declared splitter size 1..=16
-// @stub alloc::fmt::format = returns an empty String
-// @stub std::hash::RandomState::new = fixed keys
-// @cbmc --max-field-sensitivity-array-size 512
-#[kani::proof]
-#[kani::unwind(20)]
-#[kani::stub(alloc::fmt::format, format_stub)]
-#[kani::stub(std::hash::RandomState::new, random_state_stub)]
-fn c06_nopanic_splitter_size() {
+fn splitter_size(sz: u16) {
 	let v = Version(3, 16, 0);
 	let mut t = table_for(v);
-	let sz: u16 = kani::any();
-	kani::assume(sz >= 1 && sz <= 16);
 	t[0x10] = NonZeroU16::new(sz);
 	let frames = peppi::frame::mutable::Frame::with_capacity(0, v, &[]);
 	let mut state = ParseState::verif_from_parts(t, 0, mk_start(v), frames, [0; 4]);
-	let mut ev: [u8; 17] = kani::any();
+	let mut ev: [u8; 520] = kani::any();
 	ev[0] = 0x10;
 	let res = parse_event(&ev[..1 + sz as usize], &mut state, None);
-	kani::cover!(true, "returned");
 	forget(res);
 	forget(state);
+}
+
+// @verif property=C06 tier=quick mem=10 timeout=1500
+// @encodes peppi::io::slippi::de::parse_event + handle_splitter_event with a payload table that declares the message splitter with size 1 instead of 516
+// @symbolic 8 the event bytes
+// @bound one event; port-free 3.16 state (one harness per declared size: a call that panics on every path would hide the calls after it)
+// @stub alloc::fmt::format = returns an empty String
+// @stub std::hash::RandomState::new = fixed keys
+// @cbmc --max-field-sensitivity-array-size 1024
+#[kani::proof]
+#[kani::unwind(10)]
+#[kani::stub(alloc::fmt::format, format_stub)]
+#[kani::stub(std::hash::RandomState::new, random_state_stub)]
+fn c06_nopanic_splitter_size_1() {
+	splitter_size(1);
+	kani::cover!(true, "returned");
+}
+
+// @verif property=C06 tier=thorough mem=10 timeout=1500
+// @encodes peppi::io::slippi::de::parse_event + handle_splitter_event with a payload table that declares the message splitter with size 515 instead of 516
+// @symbolic 4120 the event bytes
+// @bound one event; port-free 3.16 state (one harness per declared size: a call that panics on every path would hide the calls after it)
+// @stub alloc::fmt::format = returns an empty String
+// @stub std::hash::RandomState::new = fixed keys
+// @cbmc --max-field-sensitivity-array-size 1024
+#[kani::proof]
+#[kani::unwind(10)]
+#[kani::stub(alloc::fmt::format, format_stub)]
+#[kani::stub(std::hash::RandomState::new, random_state_stub)]
+fn c06_nopanic_splitter_size_515() {
+	splitter_size(515);
+	kani::cover!(true, "returned");
+}
+
+// @verif property=C06 tier=quick mem=10 timeout=1500
+// @encodes peppi::io::slippi::de::parse_event + handle_splitter_event with a payload table that declares the message splitter with size 517 instead of 516
+// @symbolic 4136 the event bytes
+// @bound one event; port-free 3.16 state (one harness per declared size: a call that panics on every path would hide the calls after it)
+// @stub alloc::fmt::format = returns an empty String
+// @stub std::hash::RandomState::new = fixed keys
+// @cbmc --max-field-sensitivity-array-size 1024
+#[kani::proof]
+#[kani::unwind(10)]
+#[kani::stub(alloc::fmt::format, format_stub)]
+#[kani::stub(std::hash::RandomState::new, random_state_stub)]
+fn c06_nopanic_splitter_size_517() {
+	splitter_size(517);
+	kani::cover!(true, "returned");
 }
 
 fn event_after_open_frame(v: Version, code: u8, open_first: bool) -> bool {
